@@ -306,10 +306,11 @@ def summary (s : PState) : String :=
     let hg := hashList (c.gates.toList.flatMap gateItems)
     let hw := hashList c.wit.toList
     let hp := hashList ((sortedPis c).flatMap fun p => [p.1, p.2])
+    let hpr := hashList ((sortedPis c).map fun p => p.1)
     let hr := hashList s.rets.toList
     let rv := hashList (s.regs.toList.map c.val)
     let errs := String.intercalate "," (s.errs.toList.map fun (i, e) => s!"{i}:{e}")
-    s!"gates={c.gates.size} wit={c.wit.size} pis={c.pis.size} hg={toHex hg} hw={toHex hw} hp={toHex hp} hr={toHex hr} rv={toHex rv} errs=[{errs}]"
+    s!"gates={c.gates.size} wit={c.wit.size} pis={c.pis.size} hg={toHex hg} hw={toHex hw} hp={toHex hp} hpr={toHex hpr} hr={toHex hr} rv={toHex rv} errs=[{errs}]"
 
 def satSummary (s : PState) : String :=
   match s.c.firstFailure with
